@@ -141,6 +141,8 @@ def sweep_invariants(tier, seed):
   yield dict(which='apfl', rounds=R, coef=0.0)
   yield dict(which='hyp', rounds=[[4, 3, 5], [3, 0, 4], [0, 0], [5], [2, 2]])
   yield dict(which='mimelite', rounds=R)
+  yield dict(which='mimelite', rounds=R, clip=0.0)
+  yield dict(which='mimelite', rounds=R, clip=0.5)
   yield dict(which='ignore', rounds=[])
 
 
